@@ -16,13 +16,14 @@ import (
 //	nested   special diagrams nested in each other (grid in sequence in container, sequence in grid cell …)
 //	names    core with names full of characters that matter to the JS bridges and to key parsing
 //	boards   layers / scenarios / steps with small diagrams
+//	deep     containers with margins holding deeply nested shapes connected to the outside; margins on opposite sides
 type Gen struct {
 	R       *rand.Rand
 	special bool // names profile
 	n       int
 }
 
-var Profiles = []string{"core", "styled", "grid", "seq", "near", "nested", "names", "boards"}
+var Profiles = []string{"core", "styled", "grid", "seq", "near", "nested", "names", "boards", "deep"}
 
 var shapes = []string{"rectangle", "square", "page", "parallelogram", "document", "cylinder", "queue", "package",
 	"step", "callout", "stored_data", "person", "diamond", "oval", "circle", "hexagon", "cloud", "c4-person"}
@@ -137,11 +138,17 @@ func (g *Gen) style(n *node, leaf bool) {
 	if r.Intn(4) == 0 {
 		n.attrs = append(n.attrs, "label.near: "+g.pick(labelPositions))
 	}
-	if leaf && r.Intn(6) == 0 {
-		n.attrs = append(n.attrs, fmt.Sprintf("width: %d", 20+r.Intn(300)))
+	// explicit sizes; slanted / curved outlines get at least 60 px: a 30 px wide parallelogram has no straight top
+	// edge left for TraceToShapeBorder to hit and the route ends on the bounding box corner (observed, dagre)
+	lo := 20
+	if shape != "rectangle" && shape != "square" {
+		lo = 60
 	}
 	if leaf && r.Intn(6) == 0 {
-		n.attrs = append(n.attrs, fmt.Sprintf("height: %d", 20+r.Intn(300)))
+		n.attrs = append(n.attrs, fmt.Sprintf("width: %d", lo+r.Intn(300)))
+	}
+	if leaf && r.Intn(6) == 0 {
+		n.attrs = append(n.attrs, fmt.Sprintf("height: %d", lo+r.Intn(300)))
 	}
 }
 
@@ -249,7 +256,25 @@ func (g *Gen) sequence(n *node, maxActors, maxMsgs int) {
 			}
 		}
 	}
+	// late actors: not declared up front — they appear on a line of their own (or by first use) after some
+	// messages and groups, so that groups precede later actors among the diagram's children
+	var late []*node
+	if na >= 2 && r.Intn(2) == 0 {
+		k := 1 + r.Intn(2)
+		if k >= na {
+			k = na - 1
+		}
+		late = actors[na-k:]
+		n.kids = n.kids[:len(n.kids)-k]
+		// an actor first mentioned inside a group would become a child of the group (d2 then refuses the layout:
+		// "could not find center of …. Is it declared as an actor?"), so late actors are only used after their
+		// declaration line, see below
+		actors = actors[:na-k]
+	}
 	nm := r.Intn(maxMsgs + 1)
+	if len(late) > 0 && nm < 3 {
+		nm = 3
+	}
 	ep := func() string {
 		a := actors[r.Intn(len(actors))]
 		switch r.Intn(6) {
@@ -307,6 +332,39 @@ func (g *Gen) sequence(n *node, maxActors, maxMsgs int) {
 			i++
 		}
 	}
+	if len(late) > 0 {
+		// make sure a group exists, then declare the late actors somewhere after it
+		first := -1
+		for idx, l := range n.raw {
+			if strings.Contains(l, ": {\n") {
+				first = idx
+				break
+			}
+		}
+		if first < 0 {
+			n.raw = append([]string{g.fresh() + ": {\n  " + actors[0].name + " -> " + actors[0].name + ": think\n}"}, n.raw...)
+			first = 0
+		}
+		for _, a := range late {
+			pos := first + 1 + r.Intn(len(n.raw)-first)
+			decl := a.name
+			if len(a.attrs) > 0 {
+				decl += ": {\n  " + strings.Join(a.attrs, "\n  ") + "\n}"
+			}
+			n.raw = append(n.raw[:pos], append([]string{decl}, n.raw[pos:]...)...)
+		}
+		// messages of the late actors, after all declarations
+		actors = append(actors, late...)
+		for i, k := 0, 1+r.Intn(4); i < k; i++ {
+			a := late[r.Intn(len(late))]
+			b := ep()
+			if r.Intn(2) == 0 {
+				n.raw = append(n.raw, a.name+" -> "+b)
+			} else {
+				n.raw = append(n.raw, b+" -> "+a.name+": "+quoteVal(g.word()))
+			}
+		}
+	}
 }
 
 // grid fills n as a grid diagram
@@ -326,7 +384,7 @@ func (g *Gen) grid(n *node, depth int) {
 	nc := 1 + r.Intn(8)
 	for i := 0; i < nc; i++ {
 		c := n.add(&node{name: g.fresh()})
-		switch r.Intn(8) {
+		switch r.Intn(9) {
 		case 0, 1: // container cell
 			g.tree(c, 1+r.Intn(3), 2, false)
 			g.edges(c, r.Intn(3), false)
@@ -340,6 +398,19 @@ func (g *Gen) grid(n *node, depth int) {
 			}
 		case 4:
 			c.attrs = append(c.attrs, "label: "+quoteVal(g.word()))
+		case 5:
+			// a low cell with a tall label outside on the left/right (bottom / middle aligned) or above/below
+			lines := 2 + r.Intn(6)
+			lab := make([]string, lines)
+			for k := range lab {
+				lab[k] = fmt.Sprintf("l%d", k+1)
+			}
+			c.attrs = append(c.attrs, "label: "+quoteVal(strings.Join(lab, "\\n")),
+				"label.near: "+g.pick([]string{"outside-left-bottom", "outside-left-center", "outside-right-bottom",
+					"outside-right-center", "outside-left-top", "outside-top-center", "outside-bottom-center", "outside-bottom-left"}),
+				fmt.Sprintf("height: %d", 20+r.Intn(40)))
+		case 6:
+			c.attrs = append(c.attrs, fmt.Sprintf("height: %d", 120+r.Intn(250)))
 		}
 	}
 	// cell-to-cell edges and edges between descendants of different cells
@@ -463,6 +534,70 @@ func (g *Gen) Program(profile string) string {
 			nn := root.add(&node{name: g.fresh()})
 			nn.attrs = append(nn.attrs, "near: "+g.pick(nearConsts))
 			g.tree(nn, 1+r.Intn(2), 1, false)
+		}
+	case "deep":
+		// C20: containers with margins (outside label / icon on one side, 3d, multiple) holding shapes several levels
+		// down that connect to shapes outside; shapes with margins on opposite sides and connections leaving them
+		g.direction(root)
+		outsidePos := []string{"outside-bottom-center", "outside-bottom-left", "outside-bottom-right", "outside-top-left",
+			"outside-top-right", "outside-left-center", "outside-left-top", "outside-right-center", "outside-right-bottom"}
+		var outs []*node
+		for i, k := 0, 1+r.Intn(3); i < k; i++ {
+			outs = append(outs, root.add(&node{name: g.fresh()}))
+		}
+		for i, k := 0, 1+r.Intn(2); i < k; i++ {
+			c := root.add(&node{name: g.fresh()})
+			switch r.Intn(4) {
+			case 0:
+				c.attrs = append(c.attrs, "label.near: "+g.pick(outsidePos))
+			case 1:
+				c.attrs = append(c.attrs, "icon: "+iconURL, "icon.near: "+g.pick(outsidePos))
+			case 2:
+				c.attrs = append(c.attrs, "label.near: "+g.pick(outsidePos), "icon: "+iconURL, "icon.near: "+g.pick(outsidePos))
+			default:
+				c.attrs = append(c.attrs, g.pick([]string{"style.multiple: true", "style.3d: true"}))
+			}
+			cur := c
+			for d, depth := 0, 1+r.Intn(3); d < depth; d++ {
+				if r.Intn(3) == 0 {
+					cur.add(&node{name: g.fresh()})
+				}
+				cur = cur.add(&node{name: g.fresh()})
+			}
+			// cur is a leaf some levels down
+			for j, m := 0, 1+r.Intn(2); j < m; j++ {
+				o := outs[r.Intn(len(outs))]
+				if r.Intn(2) == 0 {
+					root.raw = append(root.raw, cur.path()+" -> "+o.path())
+				} else {
+					root.raw = append(root.raw, o.path()+" -> "+cur.path())
+				}
+			}
+		}
+		// shapes with margins on opposite sides
+		for i, k := 0, 1+r.Intn(2); i < k; i++ {
+			a := root.add(&node{name: g.fresh()})
+			a.attrs = append(a.attrs, "label: "+quoteVal(g.pick([]string{"ab", "alpha", "x"})))
+			switch r.Intn(3) {
+			case 0:
+				a.attrs = append(a.attrs, g.pick([]string{"style.multiple: true", "style.3d: true"}),
+					"label.near: "+g.pick([]string{"outside-bottom-left", "outside-bottom-right", "outside-left-bottom", "outside-left-center"}))
+			case 1:
+				a.attrs = append(a.attrs, "label.near: "+g.pick([]string{"outside-left-center", "outside-top-left"}),
+					"icon: "+iconURL, "icon.near: "+g.pick([]string{"outside-right-center", "outside-bottom-right"}))
+			default:
+				a.attrs = append(a.attrs, g.pick([]string{"style.multiple: true", "style.3d: true"}),
+					"icon: "+iconURL, "icon.near: "+g.pick([]string{"outside-bottom-left", "outside-left-center"}))
+			}
+			if r.Intn(2) == 0 {
+				a.attrs = append(a.attrs, fmt.Sprintf("width: %d", 120+r.Intn(200)))
+			}
+			o := outs[r.Intn(len(outs))]
+			if r.Intn(3) > 0 {
+				root.raw = append(root.raw, a.path()+" -> "+o.path())
+			} else {
+				root.raw = append(root.raw, o.path()+" -> "+a.path())
+			}
 		}
 	case "boards":
 		g.tree(root, 1+r.Intn(4), 2, false)
